@@ -56,9 +56,16 @@ struct vg_key { int imported; int from_pem; int is_priv; };
 static struct vg_key vg_pub, vg_priv, vg_priv2;
 static int vg_priv_used;
 
+int vg_der_live;                         /* the buffer gnutls_encode_rs_value handed out is not yet released */
+
 static void vg_free(void *p)
 {
-	if (p == (void *)&vg_der_token || p == (void *)vg_dec_r || p == (void *)vg_dec_s || p == (void *)vg_rawsig)
+	if (p == (void *)&vg_der_token) {
+		__CPROVER_assert(vg_der_live, "double release of the buffer made by gnutls_encode_rs_value");
+		vg_der_live = 0;
+		return;
+	}
+	if (p == (void *)vg_dec_r || p == (void *)vg_dec_s || p == (void *)vg_rawsig)
 		return;
 	free(p);
 }
@@ -241,6 +248,7 @@ int gnutls_encode_rs_value(gnutls_datum_t *sig_value, const gnutls_datum_t *r, c
 	}
 	sig_value->data = &vg_der_token;
 	sig_value->size = 1;
+	vg_der_live = 1;
 	return 0;
 }
 
@@ -327,4 +335,21 @@ int gnutls_hmac_fast(gnutls_mac_algorithm_t algorithm, const void *key, size_t k
 		if (i < n)
 			((unsigned char *)digest)[i] = nondet_uchar();
 	return 0;
+}
+
+/* one-shot digest: arbitrary output of the digest's length, may fail */
+int gnutls_hash_fast(gnutls_digest_algorithm_t algorithm, const void *text, size_t textlen, void *digest)
+{
+	unsigned i, n = algorithm == GNUTLS_DIG_SHA256 ? 32 : algorithm == GNUTLS_DIG_SHA384 ? 48 : algorithm == GNUTLS_DIG_SHA512 ? 64 : 0;
+	VF_OBSERVE();
+	if (nondet_bool())
+		return -1;
+	for (i = 0; i < 64; i++)
+		if (i < n)
+			((unsigned char *)digest)[i] = nondet_uchar();
+	return 0;
+}
+unsigned gnutls_hash_get_len(gnutls_digest_algorithm_t algorithm)
+{
+	return algorithm == GNUTLS_DIG_SHA256 ? 32 : algorithm == GNUTLS_DIG_SHA384 ? 48 : algorithm == GNUTLS_DIG_SHA512 ? 64 : 0;
 }
